@@ -994,8 +994,41 @@ func TestOracleC12(t *testing.T) {
 }
 
 // C15: Close is final, leak-free, honours connection ownership.
+// a connection whose Read keeps failing with a timeout error (a shared socket with a read deadline): the reader must
+// still notice Close
+type ocTimeoutConn struct{ closed chan struct{} }
+type ocTimeoutErr struct{}
+
+func (ocTimeoutErr) Error() string   { return "i/o timeout (oracle)" }
+func (ocTimeoutErr) Timeout() bool   { return true }
+func (ocTimeoutErr) Temporary() bool { return true }
+func (c *ocTimeoutConn) Read([]byte) (int, error) {
+	time.Sleep(200 * time.Microsecond)
+	return 0, ocTimeoutErr{}
+}
+func (c *ocTimeoutConn) Write(p []byte) (int, error) { return len(p), nil }
+func (c *ocTimeoutConn) Close() error                { return nil }
+
+func (o *oracle) closeWithTimingOutReads() {
+	o.cases++
+	c, err := NewClient(&ocTimeoutConn{}, WithNoConnClose(), WithRTO(time.Hour))
+	if err != nil {
+		o.failf("NewClient: %v", err)
+		return
+	}
+	time.Sleep(5 * time.Millisecond) // the reader is going round its loop on timeout errors
+	done := make(chan error, 1)
+	go func() { done <- c.Close() }()
+	select {
+	case <-done:
+	case <-time.After(5 * time.Second):
+		o.failf("history [NewClient(WithNoConnClose) on a connection whose Read keeps returning a timeout error; Close]: Close did not return within 5 s - the reader goroutine never looks at the stop channel")
+	}
+}
+
 func TestOracleC15(t *testing.T) {
 	o := newOracle(t)
+	o.closeWithTimingOutReads()
 	for _, noClose := range []bool{false, true} {
 		for _, h := range []string{"c", "cc", "sc", "scc", "sTc", "srcs", "sSc", "csS", "swc", "sc" + "s"} {
 			w := newOcWorld(o, 2, 100*time.Millisecond, noClose, true)
